@@ -524,7 +524,7 @@ pub fn apply_fault(stream: &mut Vec<u8>, f: &Fault) {
     }
 }
 
-fn hex(b: &[u8]) -> String {
+pub fn hex(b: &[u8]) -> String {
     let mut s = String::with_capacity(b.len() * 2);
     for x in b {
         s.push_str(&format!("{:02x}", x));
@@ -532,7 +532,7 @@ fn hex(b: &[u8]) -> String {
     s
 }
 
-fn unhex(s: &str) -> Vec<u8> {
+pub fn unhex(s: &str) -> Vec<u8> {
     (0..s.len() / 2).filter_map(|i| u8::from_str_radix(&s[2 * i..2 * i + 2], 16).ok()).collect()
 }
 
